@@ -236,7 +236,9 @@ def check_case(case):
                     viol(OB_NAIVE, "wrong-value", symbol=X, observed=val(got), expected=t[X])
                 if Z is not None and common.in_semiring(Z[f(X)], sr) and not _num_close(val(got), val(Z[f(X)]), 2 * abs_tol):
                     viol(OB_AGREE, "evaluators-disagree", cls=zcls(Z[f(X)], t[X]), symbol=X, naive=val(got), agenda=val(Z[f(X)]), expected=t[X])
-        # ---- treesum and the language sum
+        # ---- treesum and the language sum (a coarse query first: a later default query must not be answered from it)
+        call(lambda: cfg.treesum(tol=1e-2))
+        call(lambda: cfg.treesum(maxiter=3))
         st, ts = call(cfg.treesum)
         out["n"] += 1
         if st != "ok":
